@@ -468,6 +468,67 @@ func (*prop) Generate(rng *core.Rand, tier string, emit func(string)) {
 			emitS(soup(soupR))
 		}
 	}
+	// the command around the formatter (`cf`, cmdfmt.go): files with Windows line endings —
+	// also INSIDE multi-line quoted / backquoted tokens and heredocs, where the CR is token
+	// text — plus a sample of the ordinary document stream, in all four modes of `caddy fmt`
+	cfR := rng.Fork()
+	nc := 600
+	if tier == "thorough" {
+		nc = 6000
+	}
+	// modes p and d cost a child process each (about 40 ms), w and s run in-process
+	modes := []string{"w", "s", "p", "w", "s", "w", "d", "s"}
+	k := 0
+	emitCf := func(s string) { emit("cf " + modes[k%len(modes)] + " " + core.Hex(s)); k++ }
+	for _, s := range cmdFmtFixed {
+		for _, m := range []string{"p", "w", "s", "d"} {
+			emit("cf " + m + " " + core.Hex(s))
+		}
+	}
+	for c := 0; c < nc; c++ {
+		var s string
+		switch x := c % 10; {
+		case x < 4: // a document with multi-line tokens, every newline written as CR LF
+			s = crlf(genDoc(cfR, cfR.Pick([]string{"", "", "W"}), 1+cfR.Intn(6)) + cfR.Pick(cmdFmtMultiline))
+		case x < 6: // multi-line tokens only, mixed line endings
+			s = cfR.Pick(cmdFmtMultiline)
+			if cfR.Chance(1, 2) {
+				s = "a " + s + "\r\n" + cfR.Pick(cmdFmtMultiline)
+			}
+			if cfR.Chance(1, 2) {
+				s = crlf(s)
+			}
+		case x < 8:
+			s = genDoc(cfR, "", 1+cfR.Intn(8))
+		case x < 9:
+			s = crlf(cfR.Pick(cs))
+		default:
+			s = soup(cfR)
+		}
+		emitCf(s)
+	}
+}
+
+// crlf writes every line break of s as CR LF
+func crlf(s string) string {
+	return strings.ReplaceAll(strings.ReplaceAll(s, "\r\n", "\n"), "\n", "\r\n")
+}
+
+// files for `caddy fmt`: the CR of a CR LF inside a quoted / backquoted token is part of the token
+var cmdFmtFixed = []string{
+	":8080 {\r\n\theader X-Note `first\r\nsecond`\r\n\trespond \"line one\r\nline two\"\r\n}\r\n",
+	"respond \"a\r\nb\"",
+	"a `x\r\n\r\ny` b\r\n",
+	"a {\r\n  b   c\r\n}\r\n",
+	"a <<EOF\r\n  text\r\n  EOF\r\n",
+	"example.com {\n\trespond \"hi\"\n}\n",
+	"a\r\rb \"c\r\r\nd\"",
+	"",
+}
+
+var cmdFmtMultiline = []string{
+	"respond \"line one\nline two\"\n", "header X `first\nsecond`\n", "\"a\n\nb\"", "`\n`", "\"\n\"", "x \"a\r\nb\" y\n",
+	"`a\r\n\tb\r\n` {\n}\n", "respond <<EOF\n  one\n  two\n  EOF 200\n", "a \"b \\\" c\nd\" e", "\"tab\there\nnext\"\n# c\n",
 }
 
 var enumSyms = []string{"a", " ", "\n", "{", "}", "<", "\\", "`", "\"", "#"}
